@@ -16,6 +16,8 @@ def rpms_cases(ctx, focus):
             cfg = core.cfg_with("RpmsGen.cfg", ["CONSTRAINT Emit"], consts)
             ctx.require_ok(ctx.tlc("RpmsGen", cfg_text=cfg, constants=consts, on_emit=out.append, timeout=1200))
         return out
+    if focus in ("C12", "C03"):
+        cases += gen("edit", 4 if ctx.quick else 5)
     if focus == "C12":
         cases += gen("matrix", 1, wide=not ctx.quick)
         cases += gen("hist", 2 if ctx.quick else 3)
